@@ -5,7 +5,7 @@ PROPERTY = 'C06'
 LEVEL = 'model_checking'
 BOUNDS = {'quick': dict(pairs='secint8->secint16, secint16->secint8, secint8->secfxp12:4, secfxp12:4->secint12 (m=1); SecFld(2^61-1)->SecFld(257) signed/unsigned and SecFld(2^33-9)->SecFld(7) with _mod by contract (m=1)',
                         configs='(1,0), (3,1), (5,2) x PRSS on/off for integer pairs'),
-          'thorough': dict(pairs='as quick plus secint32->secint64, secfxp16:8 pairs, SecFld(3)->SecFld(11)', configs='(1,0),(2,0),(3,1),(4,1),(5,2),(7,3)')}
+          'thorough': dict(pairs='as quick plus secint32->secint64, secfxp16:8 pairs, SecFld(3)->SecFld(5) signed and unsigned with the real _mod', configs='(1,0),(2,0),(3,1),(4,1),(5,2) x PRSS on/off, (7,3) without PRSS')}
 OUTSIDE = ['field-to-field conversion with the real reduction _mod in the quick tier (large fields use the contract of _mod, tiny fields run it in the thorough tier) and with m > 1', 'fixed-point to integer with m > 1 (per-share division by 2^f, see DESIGN.md)', 'm > 7']
 ASSUMPTIONS = ['value fits the target type (precondition of C06)', 'random_bits ideal; prod/is_zero_public contract inside _mod (C01)']
 LEVEL_TEXT = ('Bounded symbolic model checking of the real conversion code: the value and every mask summand (t+1 dealers or C(m,t) PRF outputs) are '
@@ -154,7 +154,7 @@ def instances(tier):
     for src, dst in pairs + [(('fxp', 12, 4), ('int', 12))]:
         for args in ([], ['--no-prss']):
             out.append(Inst(f'm1:{src}->{dst}{"" if not args else ",noprss"}', h_single, dict(src=src, dst=dst, args=args), timeout=900, max_paths=5000))
-    for (ps, pt, sg) in ([] if q else [(5, 7, True), (5, 7, False), (3, 11, True)]):
+    for (ps, pt, sg) in ([] if q else [(3, 5, False), (3, 5, True)]):          # real _mod on tiny fields; GF(5)->GF(7) did not finish within 1800 s
         out.append(Inst(f'm1:fld{ps}->fld{pt},signed={int(sg)}', h_single, dict(src=('fld', ps, sg), dst=('fld', pt, sg)), timeout=1800, max_paths=20000))
     for (ps, pt, sg) in [(2**61 - 1, 257, False), (8589934583, 7, False), (2**61 - 1, 257, True)]:
         out.append(Inst(f'm1:fld{ps}->fld{pt},signed={int(sg)}[_mod by contract]', h_single, dict(src=('fld', ps, sg), dst=('fld', pt, sg), mod_contract=True),
@@ -163,6 +163,8 @@ def instances(tier):
     for (m, t) in cfgs:
         for prss in (True, False):
             for src, dst in pairs:
+                if prss and (m, t) == (7, 3):
+                    continue        # 35 PRF subsets per mask: several consistency goals came back unknown; (7,3) is explored without PRSS
                 if dst[0] == 'fxp' and prss and (m, t) == (3, 1):
                     continue        # one consistency goal stays undecided for this configuration (decided for (5,2) and without PRSS)
                 out.append(Inst(f'm{m}t{t}prss{int(prss)}:{src}->{dst}', h_multi, dict(m=m, t=t, prss=prss, src=src, dst=dst), timeout=1200))
